@@ -178,3 +178,54 @@ func H14_Restart() {
 	}
 	verif.Reach("end")
 }
+
+// H14_Concurrent: "or are submitted concurrently": two goroutines submit one bundle each at the same moment - same
+// source, same creation time (same millisecond or the zero time) - with the scheduler switching goroutines at every
+// unlock and every store call: the two bundles get different IDs, each is filed under its own key with its own payload,
+// and what is transmitted carries the stored sequence number.
+func H14_Concurrent() {
+	var log []sendRec
+	k := verif.Size("peers", 0, 1)
+	c, _ := coreWithPeers("epidemic", 0, k, &log)
+	defer c.Close()
+	zero := verif.Bool("zerotime")
+	mk := func(tag byte) bpv7.Bundle {
+		if zero {
+			b, err := bpv7.Builder().Source("dtn://this/app").Destination("dtn://far/inbox").CreationTimestampEpoch().Lifetime("1h").
+				BundleAgeBlock(uint64(0)).PayloadBlock([]byte{tag}).Build()
+			verif.Assert(err == nil, "bundle builds")
+			return b
+		}
+		b := dataBundle("dtn://this/app", "dtn://far/inbox", 0)
+		b.CanonicalBlocks[len(b.CanonicalBlocks)-1].Value = bpv7.NewPayloadBlock([]byte{tag})
+		return b
+	}
+	bs := []bpv7.Bundle{mk('A'), mk('B')}
+	done := make(chan struct{}, 2)
+	for i := range bs {
+		go func(i int) { c.SendBundle(&bs[i]); done <- struct{}{} }(i)
+	}
+	<-done
+	<-done
+	settle()
+	verif.Assert(bs[0].ID() != bs[1].ID(), "bundles submitted at the same moment get different IDs")
+	for i := range bs {
+		bi, err := c.store.QueryId(bs[i].ID())
+		verif.Assert(err == nil, "every submitted bundle is filed in the store")
+		if err == nil {
+			sb, lerr := bi.Parts[0].Load()
+			verif.Assert(lerr == nil, "the filed bundle loads")
+			pl, _ := sb.PayloadBlock()
+			verif.Assert(pl != nil && pl.Value.(*bpv7.PayloadBlock).Data()[0] == byte('A'+i), "each key holds the bundle that was submitted under it")
+		}
+	}
+	for _, r := range log {
+		for i := range bs {
+			if r.b.ID() == bs[i].ID() {
+				pl, _ := r.b.PayloadBlock()
+				verif.Assert(pl.Value.(*bpv7.PayloadBlock).Data()[0] == byte('A'+i), "the transmitted sequence number belongs to the transmitted bundle")
+			}
+		}
+	}
+	verif.Reach("end")
+}
